@@ -287,7 +287,7 @@ pub fn run(ctx: &mut Ctx) {
         judge(ctx, &ast, &extra, "table");
     }
     ctx.stratum("R-random-single-alternatives", false);
-    let n = ctx.tier.pick(40_000u64, 4_000_000u64);
+    let n = ctx.tier.n(40_000, 4_000_000);
     for i in 0..n {
         if !ctx.take() {
             continue;
@@ -304,7 +304,7 @@ pub fn run(ctx: &mut Ctx) {
     }
     // resolver-style use
     ctx.stratum("M-max-min-satisfying-with-gated-prereleases", false);
-    let n = ctx.tier.pick(10_000u64, 1_000_000u64);
+    let n = ctx.tier.n(10_000, 1_000_000);
     for i in 0..n {
         if !ctx.take() {
             continue;
